@@ -113,6 +113,7 @@ var (
 		"tx_input",
 		"tx_value",
 		"tx_type",
+		"tx_gas_price",
 		"tx_max_priority_fee_per_gas",
 		"tx_max_fee_per_gas",
 	}
@@ -126,6 +127,7 @@ var (
 		"tx_type",
 		"tx_status",
 		"tx_gas_used",
+		"tx_effective_gas_price",
 		"tx_contract_address",
 		"log_addr",
 		"log_idx",
@@ -140,6 +142,7 @@ var (
 	}
 	trace = []string{
 		"trace_action_call_type",
+		"trace_action_idx",
 		"trace_action_from",
 		"trace_action_to",
 		"trace_action_value",
